@@ -38,12 +38,17 @@ from calmjs.parse.ruletypes import (
 from calmjs.parse.lexers.es5 import PATT_LINE_CONTINUATION
 from calmjs.parse.unicode_chars import COMBINING_MARK
 from calmjs.parse.unicode_chars import CONNECTOR_PUNCTUATION
+from calmjs.parse.unicode_chars import DIGIT
+from calmjs.parse.unicode_chars import LETTER
 
 # the last character of an identifier may also be a combining mark or a
-# connector punctuation, which \w does not cover.
+# connector punctuation, which \w does not cover; the lexer's own tables
+# of letters and digits are listed as well, for \w follows the Unicode
+# version of the interpreter and may lack characters the lexer accepts.
 required_space = re.compile(
-    r'^(?:(?:[\w$]|' + COMBINING_MARK + r'|' + CONNECTOR_PUNCTUATION +
-    r')[\w$]|\+\+|\-\-)$')
+    r'^(?:(?:[\w$]|' + LETTER + r'|' + DIGIT + r'|' + COMBINING_MARK +
+    r'|' + CONNECTOR_PUNCTUATION + r')(?:[\w$]|' + LETTER +
+    r')|\+\+|\-\-)$')
 
 # the various assignments symbols; for dealing with pretty spacing
 assignment_tokens = {
